@@ -462,8 +462,15 @@ func authorizeAnyChannel(princ Principal, channels base.Set) error {
 				return nil
 			}
 		}
-	} else if princ.Channels().Contains(ch.UserStarChannel) {
-		return nil
+	} else {
+		// A document in no channels is visible with the star channel only, held directly or through a role.
+		canSee, err := princ.canSeeChannel(ch.UserStarChannel)
+		if err != nil {
+			return err
+		}
+		if canSee {
+			return nil
+		}
 	}
 	return princ.UnauthError(errUnauthorized)
 }
